@@ -1032,6 +1032,20 @@ add("E-window-03-ngram-loop-inlined-add-with-continue", ["C01", "C05", "C12", "C
 add("seeddep-01-tail-result-drops-the-seeded-accumulator", ["C14"], "hashes",
     "        h ^= _fhmix64(v)\n        h *= m\n\n    return _fhmix64(h)", "        h = _fhmix64(v)\n        h *= m\n\n    return _fhmix64(h)",
     note="for keys whose length is not a multiple of 8 the hash no longer depends on the seed: every row picks the same column")
+add("scan-08-empty-test-reads-the-transposed-cell", ["C13"], "heavyhitters",
+    "                if self.lhh_count[row, column] == 0:", "                if self.lhh_count[column, row] == 0:",
+    note="on a square table cells are skipped (or scanned) according to another cell's count")
+add("bind-09-log8-add-swaps-reserved-and-ceiling", ["C05", "C06", "C18"], "countmin",
+    "    new_count, rand_ptr = _log_counter(\n        min_count, num_reserved, uint_maxval, base, rand_nums, rand_ptr, value\n    )\n    # Reminder that this is a uint16 value so cast to uint8",
+    "    new_count, rand_ptr = _log_counter(\n        min_count, uint_maxval, num_reserved, base, rand_nums, rand_ptr, value\n    )\n    # Reminder that this is a uint16 value so cast to uint8",
+    note="the log8 add hands the ceiling to the counter step as num_reserved and vice versa")
+add("keynorm-09-short-key-never-copied-into-the-buffer", ["C03", "C04"], "heavyhitters",
+    "        key_array = np.zeros(max_key_len, uint8)\n        key_array[:key_len] = np.frombuffer(key, uint8)\n    # Only use the first max_key_len bytes if key is too long",
+    "        key_array = np.zeros(max_key_len, uint8)\n    # Only use the first max_key_len bytes if key is too long",
+    note="_add stores and compares the all-zero buffer for every key shorter than max_key_len")
+add("dead-12-log-process-left-running-after-a-dead-worker", ["C19"], "helpers",
+    "                # Kill the log worker because it is still going\n                log_process.kill()\n", "",
+    note="the failure is reported but the non-daemon log process keeps the interpreter alive")
 add("factory-07-num-reserved-zero-taken-for-unset", ["C16"], "countmin",
     "    elif cms_type == \"log16\":\n        if num_reserved is None:", "    elif cms_type == \"log16\":\n        if not num_reserved:",
     note="CountMin(..., num_reserved=0) builds a log16 sketch with the default 1023: an attached view decodes differently")
